@@ -50,8 +50,12 @@ class AV:
     """array value: list of coefficient terms (one in generic mode), length term, dependencies for the lazy check"""
     s = 'Array'
 
+    STAMP = [0]
+
     def __init__(self, c, n, deps=None, kind='Real'):
         self.c, self.n, self.deps, self.kind = list(c), n, dict(deps or {}), kind
+        AV.STAMP[0] += 1
+        self.stamp = AV.STAMP[0]       # identifies this content: a stored array gets a new stamp on every write / merge
 
     @property
     def t(self):
@@ -67,6 +71,8 @@ class MV:
 
     def __init__(self, m, deps=None):
         self.m, self.deps = [list(r) for r in m], dict(deps or {})
+        AV.STAMP[0] += 1
+        self.stamp = AV.STAMP[0]
         self.rows, self.cols = len(self.m), len(self.m[0]) if self.m else 0
 
     @property
@@ -185,7 +191,9 @@ class EigWP(IdEnvWP):
             (r'^max\|', self.h_minmax(rmax)), (r'^min\|', self.h_minmax(rmin)),
             (r'^is_pos_target\|', lambda w, n, a, c: V(f'(> {real_of(w, w.ev(a[0]))} 0.0)', 'Bool', 'bool')),
             (r'^epsilon\|', lambda w, n, a, c: w.epsilon()),
+            (r'^make_random_vector\|', self.h_random), (r'^make_random_matrix\|', self.h_random), (r'^identity\|', self.h_identity),
         ]
+        self.randoms = 0
 
     # ---------------------------------------------------------------------------------------------- inputs
     def leaf(self, name, k=None):
@@ -245,6 +253,31 @@ class EigWP(IdEnvWP):
         wp.oblige('sqrt of a non-negative value', f'(>= {v} 0.0)', n)
         return V(f'(nv_sqrt {v})', 'Real', 'double')
 
+    def h_random(self, wp, n, args, callee):
+        """make_random_vector(size, lo, hi, seed) / make_random_matrix(rows, cols, lo, hi, seed): ASSUMED contract: a tensor of
+        that shape whose coefficients are some reals (the range [lo, hi] is not used)"""
+        if self.dim is None:
+            raise Unsupported(f'{self.name}: random tensor in generic-coordinate mode')
+        self.randoms += 1
+        which = callee['referencedDecl']['name']
+        dims = [lit_int(self.ev(a).t) for a in args[:(1 if which.endswith('vector') else 2)]]
+        if any(d is None or d < 0 or d > 8 for d in dims):
+            raise Unsupported(f'{self.name}: random tensor with dimensions {dims}')
+        nm = f'rand{self.randoms}'
+        if len(dims) == 1:
+            return AV([self.leaf(nm, k) for k in range(dims[0])], str(dims[0]))
+        return MV([[self.leaf(f'{nm}_{r}_{c}', 'e') for c in range(dims[1])] for r in range(dims[0])])
+
+    def h_identity(self, wp, n, args, callee):
+        if self.dim is None:
+            raise Unsupported(f'{self.name}: identity matrix in generic-coordinate mode')
+        if 'scalar_identity_op' not in type_str(n):
+            raise Unsupported(f'{self.name}: identity(..) whose result type is not Eigen\'s scalar_identity_op')
+        r, c = lit_int(self.ev(args[0]).t), lit_int(self.ev(args[1]).t)
+        if r is None or c is None:
+            raise Unsupported(f'{self.name}: identity with symbolic dimensions')
+        return MV([['1.0' if i == j else '0.0' for j in range(c)] for i in range(r)])
+
     def h_pow(self, k):
         def h(wp, n, args, callee):
             v = wp.ev(args[0])
@@ -298,8 +331,24 @@ class EigWP(IdEnvWP):
 
     def check_fresh(self, v, what):
         for nm, ver in getattr(v, 'deps', {}).items():
-            if self.ver.get(nm) != ver:
+            cur = self.env.get(nm)
+            if cur is None or getattr(cur, 'stamp', None) != ver:
                 raise Unsupported(f'{self.name}: {what}: lazy Eigen expression used after its operand {nm} changed')
+
+    def read_stored(self, key, v):
+        """a stored array (parameter, member, local) read now: a view that is valid as long as the array is not written; a local
+        that holds a lazy expression / view is valid as long as ITS operands are not written"""
+        if key in self.ver:
+            if isinstance(v, MV):
+                r = MV(v.m, {key: v.stamp})
+            else:
+                r = type(v)(v.c, v.n, {key: v.stamp}, v.kind)
+                for a in ('writable', 'view'):
+                    if hasattr(v, a):
+                        setattr(r, a, getattr(v, a))
+            return r
+        self.check_fresh(v, f'use of {key}')
+        return v
 
     def same_len(self, a, b, node):
         if a.n != b.n:
@@ -353,7 +402,7 @@ class EigWP(IdEnvWP):
             raise Unsupported(f'{self.name}: array write of a different concrete length')
         g = self.guard
         self.ver[key] = self.ver.get(key, 0) + 1
-        self.env[key] = AV(av.c, old.n, {key: self.ver[key]})
+        self.env[key] = AV(av.c, old.n)
         self.written = getattr(self, 'written', set()) | {key}
 
     # ---------------------------------------------------------------------------------------------- declarations
@@ -388,8 +437,7 @@ class EigWP(IdEnvWP):
                 if a.c == b.c:
                     out[k] = a
                 else:
-                    self.ver[k] = self.ver.get(k, 0) + 1
-                    out[k] = AV([ITE(c, x, y) for x, y in zip(a.c, b.c)], a.n, {k: self.ver[k]})
+                    out[k] = AV([ITE(c, x, y) for x, y in zip(a.c, b.c)], a.n)
             elif isinstance(a, MV) or isinstance(b, MV) or isinstance(a, AV) or isinstance(b, AV):
                 if a is not b and a.t != b.t:
                     raise Unsupported(f'{self.name}: merging class-typed values of {k}')
@@ -407,15 +455,14 @@ class EigWP(IdEnvWP):
             key = self.idmap.get(rd.get('id'), rd.get('name'))
             v = self.env.get(key)
             if isinstance(v, (AV, MV)):
-                self.check_fresh(v, f'use of {key}')
-                return v
+                return self.read_stored(key, v)
         if k == 'MemberExpr':
             try:
                 key = self.member_name(n)
             except Unsupported:
                 key = None
             if key is not None and isinstance(self.env.get(key), (AV, MV)):
-                return self.env[key]
+                return self.read_stored(key, self.env[key])
         if k == 'CXXMemberCallExpr':
             r = self.eigen_member(n)
             if r is not None:
@@ -602,12 +649,15 @@ class EigWP(IdEnvWP):
         self.note(f'Eigen .{name}()')
         self.oblige(f'{name} of a non-empty array', f'(> {o.n} 0)', n)
         if self.dim is not None:
-            idx = self.fresh('Int', 'arg' + name[:3], 'long')
-            val = self.fresh('Real', name, 'double')
-            self.assume(f'(and (<= 0 {idx.t}) (< {idx.t} {len(o.c)}))')
-            for k, t in enumerate(o.c):
-                self.assume(f'({cmp_} {val.t} {t})')
-                self.assume(f'(=> (= {idx.t} {k}) (= {val.t} {t}))')
+            # exact: Eigen's visitor keeps the FIRST extremal coefficient (a later one replaces it only when strictly better)
+            if not o.c:
+                raise Unsupported(f'{self.name}: {name} of an empty array')
+            strict = '>' if name == 'maxCoeff' else '<'
+            vt, it = o.c[0], '0'
+            for k, t in enumerate(o.c[1:], 1):
+                c = f'({strict} {t} {vt})'
+                vt, it = ITE(c, t, vt), ITE(c, str(k), it)
+            val, idx = V(vt, 'Real', 'double'), V(it, 'Int', 'long')
         else:
             idx = self.fresh('Int', 'arg' + name[:3], 'long')
             val = self.fresh('Real', name, 'double')
@@ -639,6 +689,18 @@ class EigWP(IdEnvWP):
                     raise Unsupported(f'{self.name}: matrix element with symbolic / out-of-range indices')
                 return V(o.m[r][c], 'Real', 'double')
             return None
+        if op == 'operator=' and len(args) == 2:
+            try:
+                mkey = self.key_of(args[0])
+            except Unsupported:
+                mkey = None
+            if mkey is not None and (isinstance(self.env.get(mkey), MV) or mkey in getattr(self, 'matrix_members', ())):
+                rhs = self.ev(args[1])
+                if not isinstance(rhs, MV):
+                    raise Unsupported(f'{self.name}: non-matrix assigned to the matrix {mkey}')
+                self.env[mkey] = MV(rhs.m)
+                self.ver[mkey] = self.ver.get(mkey, 0) + 1
+                return self.env[mkey]
         if op in ASSIGN and len(args) == 2:
             try:
                 key = self.key_of(args[0])
@@ -687,6 +749,11 @@ class EigWP(IdEnvWP):
             t = type_str(n)
             if op == 'operator*' and (isinstance(a, MV) or isinstance(b, MV)):
                 return self.matprod(a, b, n)
+            if isinstance(a, MV) and isinstance(b, MV) and op in ('operator+', 'operator-'):
+                self.functor_check(n, FUNCTORS[op], op)
+                if (a.rows, a.cols) != (b.rows, b.cols):
+                    raise Unsupported(f'{self.name}: {op} on matrices of different shapes')
+                return MV([[f'({op[-1]} {x} {y})' for x, y in zip(ra, rb)] for ra, rb in zip(a.m, b.m)], self.deps_of(a, b))
             self.functor_check(n, FUNCTORS[op], op)
             self.note('Eigen ' + op)
             return self.bin_cw(op[-1], a, b, n)
@@ -723,6 +790,12 @@ class EigWP(IdEnvWP):
             if a.cols != len(b.c):
                 raise Unsupported(f'{self.name}: matrix * vector with inner dimensions {a.cols} / {len(b.c)}')
             return AV([rsum([f'(* {a.m[r][c]} {b.c[c]})' for c in range(a.cols)]) for r in range(a.rows)], str(a.rows), self.deps_of(a, b))
+        if isinstance(a, MV) and isinstance(b, MV):
+            if a.cols != b.rows:
+                raise Unsupported(f'{self.name}: matrix * matrix with inner dimensions {a.cols} / {b.rows}')
+            return MV([[rsum([f'(* {a.m[r][k]} {b.m[k][c]})' for k in range(a.cols)]) for c in range(b.cols)] for r in range(a.rows)], self.deps_of(a, b))
+        if isinstance(a, AV) and isinstance(b, MV):
+            raise Unsupported(f'{self.name}: vector * matrix')
         if isinstance(a, MV) and isinstance(b, V):
             s = real_of(self, b)
             return MV([[f'(* {x} {s})' for x in r] for r in a.m], a.deps)
@@ -755,11 +828,11 @@ class EigWP(IdEnvWP):
             self.oblige('array index within bounds', f'(and (<= 0 {idx.t}) (< {idx.t} {o.n}))', node)
             return V(self.at(o.c[0], idx.t), 'Real', 'double')
         if self.dim is not None:
-            r = self.fresh('Real', 'elem', 'double')
             self.oblige('array index within bounds', f'(and (<= 0 {idx.t}) (< {idx.t} {len(o.c)}))', node)
-            for k, t in enumerate(o.c):
-                self.assume(f'(=> (= {idx.t} {k}) (= {r.t} {t}))')
-            return r
+            r = o.c[-1]
+            for k in range(len(o.c) - 2, -1, -1):
+                r = ITE(f'(= {idx.t} {k})', o.c[k], r)
+            return V(r, 'Real', 'double')
         raise Unsupported(f'{self.name}: array element at a symbolic index outside a coordinate-wise loop')
 
     # ---------------------------------------------------------------------------------------------- element writes
